@@ -78,6 +78,9 @@ def lemmas(tier):
         else:
             body = ["a = R.annot_accepts(%r, %s)" % (c.id, x), "m = %s in %r" % (x, vals), "return a[0] == m and (not m or (a[1] == %s and R.is_member(%r, a[1])))" % (x, c.id)]
             out.append(xh.Lemma("closed_%s" % c.id, params, body, pre=pre, meta=dict(meta, what="closed: accepted iff declared value, result is the member")))
+            if c.base == "string":
+                n = len(leafrt.near(c.id))
+                out.append(xh.Lemma("near_%s" % c.id, [("k", "int")], ["return R.annot_rejects_near(%r, k)" % c.id], pre=["0 <= k < %d" % n], meta=dict(meta, what="closed: %d near misses of declared values (case / whitespace / truncation variants, by symbolic index) are rejected" % n, near=True)))
     for c in leafrt.field_cases().values():
         if c.kind not in ("enum_str", "enum_int"):
             continue
@@ -118,6 +121,8 @@ def check(tier):
             chk.inconc("%s: %s" % (site, r.message[:160]))
         elif r.verdict == "refuted":
             v = r.args.get("x", r.args.get("s"))
+            if l.meta.get("near"):
+                v = leafrt.near(l.meta["case"])[r.args["k"]]
             if l.meta["level"] == "class":
                 c = fc[l.meta["case"]]
                 member = v in c.detail["values"]
